@@ -260,6 +260,8 @@ structure Created where
 /-- `lyd_new_path_(parent ∈ f or NULL, ctx, NULL, path, value, …, options = 0 | LYD_NEW_VAL_OUTPUT)` for an absolute path
     (trees without default nodes) -/
 def newPath (schema : List SNode) (f : Forest) (path : Bytes) (v : Bytes) : Except Err Created :=
+  -- `LY_CHECK_ARG_RET(ctx, …, (path[0] == '/') || parent, …, LY_EINVAL)` of lyd_new_path / lyd_new_path2
+  if f.isEmpty && path.head? != some 47 then .error .einval else
   match compilePath schema false path with
   | .error e => .error e
   | .ok cs0 =>
